@@ -25,7 +25,7 @@ def other_rep(rng, L, raw):
 def paired_lines(rng, L, n_cheap, n_exp, hist, ophist):
     """lines for the ref build (canonical representatives) and for the x86 build (same elements, possibly
     other representatives). Only operations of the common fp_*/fp2_* API."""
-    ref_lines = G.fixed_lines(L, "ref") + G.gen_lines(rng, L, "ref", n_cheap, n_exp, hist, ophist, for_c06=True)
+    ref_lines = G.corpus_lines("C06", L) + G.fixed_lines(L, "ref") + G.gen_lines(rng, L, "ref", n_cheap, n_exp, hist, ophist, for_c06=True)
     # extra: canonical operands with all-ones limbs (carry corner cases) for sqr / mul
     for v in (L.p - 3, L.p - 2 ** 64, 2 ** (64 * (L.n - 1)) - 1, L.p - 2 ** 128 - 1, 2 ** L.e - 1):
         ref_lines += ["fp_sqr 0 %x" % v, "fp_mul 3 %x %x" % (v, v), "fp2_sqr 0 %x %x" % (v, v), "fp2_inv 0 %x %x" % (v, 1)]
@@ -72,8 +72,6 @@ def classify(L, lref, lbw, cref, cbw, model_bw):
         return "fp_decode:non-canonical", "fp2_decode of a non-canonical byte string: ref reduces modulo p, x86 returns 0"
     if op in ("fp_set_small", "fp2_set_small") and a[0] >= 2 ** 32:
         return "fp_set_small:ge-2^32", "fp_set_small with a value >= 2^32: ref takes a 64-bit digit_t, the x86 prototype takes uint32_t (truncates)"
-    if L.lvl in (3, 5) and op in G.SQUARE_USERS and model_bw:
-        return "bw:square:lost-carry", "x86 squaring loses a carry at levels 3/5 (gf65376_square / gf27500_square); the ref result is the exact one"
     return None
 
 
